@@ -296,7 +296,39 @@ def correspond(ctx):
         P._quad_available, P.segment_length = saved
     model = common.driver(lines)
     c4.compare(lines, [m.strip() for m in model], impl)
-    return [c, c2, c3, c4]
+    # ---- stream 5: a path and its shallow copy (copy.copy) under interleaved histories ---------------------------------------
+    c5 = Corr('path-and-shallow-copy')
+    r = ctx.rng('corr-twin')
+    lines, impl = [], []
+    for it in range(ctx.n(200, 2000)):
+        n0 = r.randint(1, 4)
+        init = [(r.randint(-3, 6), r.randint(-3, 6)) for _ in range(n0)]
+        path = P.Path(*[Stub(a, b) for a, b in init])
+        parts, outs = ['init ' + ' '.join('%d %d' % ab for ab in init)], []
+        n = n0
+        for _ in range(r.randint(0, 4)):
+            o = _rand_op(r, n)
+            res = _apply(path, o)
+            parts.append(_op_text(o)); outs.append(res + ' ' + _segs_str(path))
+            n = len(path._segments)
+        twin = _copy.copy(path)
+        parts.append('copy'); outs.append('copied ' + _segs_str(path))
+        for _ in range(r.randint(1, 12)):
+            who = r.choice(['o', 't'])
+            tgt = path if who == 'o' else twin
+            o = _rand_op(r, len(tgt._segments))
+            while o[0] in ('sstart', 'send'):
+                # the start / end setters edit a SEGMENT object in place, and a shallow copy shares its segment objects with the
+                # original (as the shallow copy of any container does): visible through both, by design; segments are values in the model
+                o = _rand_op(r, len(tgt._segments))
+            res = _apply(tgt, o)
+            parts.append(who + ' ' + _op_text(o)); outs.append('%s %s %s' % (res, _segs_str(path), _segs_str(twin)))
+            c5.count(who + ':' + o[0])
+        lines.append('twinhist ' + ' ; '.join(parts))
+        impl.append(' ; '.join(outs))
+    model = common.driver(lines)
+    c5.compare(lines, [m.strip() for m in model], impl)
+    return [c, c2, c3, c4, c5]
 
 
 # ---------------------------------------------------------------------------
@@ -367,7 +399,7 @@ def sample(ctx, budget=1.0, hint=None, broken=None):
                 for stepi in range(r.randint(1, 12)):
                     n = len(path)
                     k = r.choice(['set', 'setneg', 'slice', 'del', 'ins', 'app', 'ext', 'pop', 'rev', 'sstart', 'send', 'iadd',
-                                  'alias', 'q', 'q', 'qlen-loose'])
+                                  'alias', 'twin', 'q', 'q', 'qlen-loose'])
                     try:
                         if k == 'set' and n:
                             i = r.randrange(n); path[i] = seg('line'); hist.append('p[%d]=seg' % i)
@@ -394,6 +426,21 @@ def sample(ctx, budget=1.0, hint=None, broken=None):
                                 path.extend([path[i]]); hist.append('extend([p[%d]])' % i)
                             else:
                                 j = r.randrange(n); path[j] = path[i]; hist.append('p[%d]=p[%d]' % (j, i))
+                        elif k == 'twin':
+                            # a shallow copy of the path is edited / measured: the original must not notice
+                            tw_ = __import__('copy').copy(path)
+                            what_ = r.choice(['append', 'pop', 'set', 'insert', 'length'])
+                            if what_ == 'append':
+                                tw_.append(seg())
+                            elif what_ == 'pop' and len(tw_) > 1:
+                                tw_.pop()
+                            elif what_ == 'set' and len(tw_):
+                                tw_[0] = seg('line')
+                            elif what_ == 'insert':
+                                tw_.insert(0, seg('line'))
+                            else:
+                                tw_.length(error=1e-3, min_depth=1)
+                            hist.append('copy.copy(p).%s' % what_)
                         elif k == 'app':
                             path.append(seg()); hist.append('append')
                         elif k == 'ext':
